@@ -28,7 +28,7 @@ package txnsnapshot
 // a response without a response-level key error are taken as a batch (with such an error the pairs are incomplete: the
 // lock is resolved and the same request is sent again).
 //@ func (*Scanner) getData
-//@   prop C05
+//@   prop C05 C14
 //@   bytes: key
 //@   opaque-callee ExtractLockFromKeyErr MayBackoffForRegionError NewRegionRequestSender
 //@   at call(SendReq) assert request: arg_req != nil && arg_req.Req.(*kvrpcpb.ScanRequest) == sreq && arg_regionID == loc.Region && sreq.Version == s.snapshot.version && sreq.Limit == uint32(s.batchSize) && sreq.Reverse == s.reverse &&
@@ -36,6 +36,10 @@ package txnsnapshot
 //@           sreq.StartKey == s.nextEndKey && sreq.EndKey == maxKey(loc.StartKey, s.nextStartKey) && inRangeByEnd(loc.StartKey, loc.EndKey, s.nextEndKey),
 //@           sreq.StartKey == s.nextStartKey && sreq.EndKey == minEnd(loc.EndKey, s.endKey) && inRange(loc.StartKey, loc.EndKey, s.nextStartKey))
 //@   at def(kvPairs) assert complete: cmdScanResp.GetError() == nil
+// (C14:) the pairs of a response are used only after the store was asked - AFTER that response had arrived - whether the
+// snapshot is still above the safe point (a check made before the request says nothing about data GC removed meanwhile)
+//@   at def(kvPairs) assert visible: visibleAt(s.snapshot.store, s.snapshot.version)
+//@   at call(CheckVisibility) assert after: defined(cmdScanResp) && arg0 == s.snapshot.version
 //@   loop 1 invariant cursor: s.nextStartKey == old(s.nextStartKey) && s.nextEndKey == old(s.nextEndKey) && s.endKey == old(s.endKey) && s.reverse == old(s.reverse) && s.batchSize == old(s.batchSize) && s.eof == old(s.eof) && s.snapshot == old(s.snapshot)
 //@   ensures fwd: result == nil && !s.reverse ==> s.idx == 0 && s.nextEndKey == old(s.nextEndKey) && ite(len(s.cache) < s.batchSize,
 //@       s.nextStartKey == loc.EndKey && (s.eof <==> (old(s.eof) || loc.EndKey == "" || (s.endKey != "" && s.nextStartKey >= s.endKey))),
